@@ -38,17 +38,23 @@ def tables(ctx, u):
         out[name] = ({t: C.classify(s.items) for t, s in tab.items()}, C.classify(dflt.items) if dflt else "none", A.where(sw), tab)
     tab, dflt, guard, sw, fn = T.arg_size_table(u)
     out["arg_size"] = ({t: C.classify(s.items) for t, s in tab.items()}, ("none" if guard else "unguarded"), A.where(sw), tab)
-    tab, fn = T.extract_arg_table(u)
-    cls = {}
-    for t, s in tab.items():
-        c = C.classify(s.items)
-        if s.ptr_members == ["s"] and c == "none":
-            c = "string"
-        elif s.ptr_members == ["b.data"] and c == "4":
-            c = "blob"
-        elif s.ptr_members:
-            c = "?ptr=%s" % s.ptr_members
-        cls[t] = c
+    try:
+        # the classes are read off an evaluation of the decoder per tag (independent of how it is written) ...
+        cls, fn = T.extract_arg_classes_eval(u)
+        tab = None
+    except AnalysisBroken:
+        # ... or, where that is not possible, off the shape of its two switches
+        tab, fn = T.extract_arg_table(u)
+        cls = {}
+        for t, s in tab.items():
+            c = C.classify(s.items)
+            if s.ptr_members == ["s"] and c == "none":
+                c = "string"
+            elif s.ptr_members == ["b.data"] and c == "4":
+                c = "blob"
+            elif s.ptr_members:
+                c = "?ptr=%s" % s.ptr_members
+            cls[t] = c
     out["extract_arg"] = (cls, "none", A.where(fn), tab)
     tab, dflt, sw, fn = T.v2args_table(u)
     out["rtosc_v2args"] = ({t: T.v2args_class(s) for t, s in tab.items()}, "none", A.where(sw), tab)
@@ -104,7 +110,7 @@ def run(ctx):
                     ctx.ob("R01.2", "%s:%s:%d-byte %s values" % (q, d["data"], len(r), d["dir"]), not bad, site=A.where(r[0][4]),
                            detail={"patterns": ncases, "mismatches": bad[:4]},
                            what="%s of %s in %s does not reproduce the bytes: %s" % (d["dir"], d["data"], q, bad[:2]))
-    ctx.require_count("R01.2", 13, but_not_ending=" values")
+    ctx.require_count("R01.2", 8, but_not_ending=" values")     # 13 on the pinned tree; shared helpers and loops legitimately merge some (the decoder's values are also checked by evaluation in R01.1)
 
     # ---- R01.3
     pad_obligations(ctx, u, "R01.3", ["vsosc_null", "rtosc_amessage", "arg_start", "arg_off", "arg_size", "rtosc_message_ring_length"])
